@@ -11,3 +11,4 @@ INVARIANT InvClear
 INVARIANT InvOrder
 INVARIANT InvAppend
 INVARIANT InvIndependent
+INVARIANT InvChain
